@@ -530,6 +530,16 @@ func init() {
 	})
 	reg("internal/abi.NoEscape", func(in *Interp, s *State, c *callCtx) (Value, []*State, bool) { return c.args[0], nil, true })
 	reg("internal/abi.Escape", func(in *Interp, s *State, c *callCtx) (Value, []*State, bool) { return c.args[0], nil, true })
+	reg("maps.clone", func(in *Interp, s *State, c *callCtx) (Value, []*State, bool) {
+		iv := c.args[0].(*Iface)
+		m, ok := iv.V.(*MapRef)
+		if !ok || m.Obj < 0 {
+			return iv, nil, true
+		}
+		md := in.mapData(s, m)
+		nd := &MapData{Entries: append([]mapEntry(nil), md.Entries...)}
+		return &Iface{T: iv.T, V: &MapRef{Obj: in.alloc(s, nd).Obj}}, nil, true
+	})
 	reg("runtime.KeepAlive", nop)
 	reg("runtime.SetFinalizer", nop)
 	reg("time.Sleep", nop)
@@ -928,4 +938,29 @@ func (in *Interp) namedModel(s *State) map[string]uint64 {
 		}
 	}
 	return m
+}
+
+// optIntrinsics are models a harness opts into by name (spec field "models"); each replaces a
+// library function by its documented meaning on a stated domain, and is listed as an assumption.
+var optIntrinsics = map[string]intrFn{
+	// (time.Time).Sub as the exact difference in nanoseconds of two wall-clock instants (no
+	// monotonic reading, no saturation): valid when both instants carry no monotonic clock reading
+	// (true for values made by time.Unix*/UnixMilli and their Add/UTC) and lie within +-146 years
+	// of each other.  The real body computes the same number and then re-checks it through
+	// u.Add(d).Equal(t), which only matters for the saturating cases.
+	"(time.Time).Sub": func(in *Interp, s *State, c *callCtx) (Value, []*State, bool) {
+		t, u := c.args[0].(*Agg), c.args[1].(*Agg)
+		const nsecMask = 1<<30 - 1
+		for _, x := range []*Agg{t, u} {
+			mono := in.ts.BAnd(x.Elems[0].(*term.Term), in.ts.Const(64, 1<<63))
+			ok, o := in.decide(s, in.ts.Eq(mono, in.ts.Const(64, 0)))
+			if o != nil || !ok {
+				in.unsup("time.Sub model: instant may carry a monotonic clock reading")
+			}
+		}
+		nsec := func(x *Agg) *term.Term { return in.ts.BAnd(x.Elems[0].(*term.Term), in.ts.Const(64, nsecMask)) }
+		dsec := in.ts.Sub(t.Elems[1].(*term.Term), u.Elems[1].(*term.Term))
+		d := in.ts.Add(in.ts.Mul(dsec, in.ts.Const(64, 1000000000)), in.ts.Sub(nsec(t), nsec(u)))
+		return d, nil, true
+	},
 }
